@@ -18,6 +18,8 @@ type Feature struct {
 
 	// protects the operations, functions can be added while the feature is in use
 	muxOperations sync.RWMutex
+	// protects the description, it can be set while the feature is in use
+	muxDescription sync.RWMutex
 }
 
 var _ api.FeatureInterface = (*Feature)(nil)
@@ -58,15 +60,21 @@ func (r *Feature) Operations() map[model.FunctionType]api.OperationsInterface {
 }
 
 func (r *Feature) Description() *model.DescriptionType {
+	r.muxDescription.RLock()
+	defer r.muxDescription.RUnlock()
+
 	return r.description
 }
 
 func (r *Feature) SetDescription(d *model.DescriptionType) {
+	r.muxDescription.Lock()
+	defer r.muxDescription.Unlock()
+
 	r.description = d
 }
 
 func (r *Feature) SetDescriptionString(s string) {
-	r.description = util.Ptr(model.DescriptionType(s))
+	r.SetDescription(util.Ptr(model.DescriptionType(s)))
 }
 
 func (r *Feature) String() string {
